@@ -313,6 +313,7 @@ def check_bytes(model, data):
         try:
             with open(path, 'wb') as f:
                 f.write(data)
+            seams.pin_times(path)
             by_path = _summary(ReadBIT.create_bit_frame_array_from_path(path))
             if by_path != fresh:
                 add({'kind': 'bit_read_by_path_differs'}, 'create_bit_frame_array_from_path() gives %r, the same bytes through a file object %r'
